@@ -8,7 +8,8 @@ PROBES = "mov rax, 0x7fffffff\nmov rax, 0x000000007fffffff\nlea r15, [rax+rsp]\n
 # option-sensitive lines of the OTHER encoder paths (VEX / SSE / MMX memory operands, one-operand forms, 32-bit address registers, [1*index],
 # r8-r15 / decimal / negated / 16-digit literals): compared with a fresh instance in the same state
 EXT_PROBES = ("vpaddb ymm1, ymm2, [2*r12+8]\npush qword [rbx+rsp]\ninc dword [2*rsi]\nlea r15d, [eax+esp]\nlea r14, [2*r13d]\nmov r9, 1\nmov r12, 0x0000000000000010\n"
-              "paddb xmm1, [rbp+rsp+8]\nmovntq [2*rdx-0x80], mm1\nsete [rcx+rsp]\nmov r10, 4294967295\nbextr rax, [2*r9], rbx\ncall [r8+rsp]\nmov rcx, -0xffffffff00000001\n")
+              "paddb xmm1, [rbp+rsp+8]\nmovntq [2*rdx-0x80], mm1\nsete [rcx+rsp]\nmov r10, 4294967295\nbextr rax, [2*r9], rbx\ncall [r8+rsp]\nmov rcx, -0xffffffff00000001\n"
+              "lea rax, [1*rcx]\npush qword [1*rbx]\nvpaddb ymm0, ymm1, [1*rsi]\ncall [1*rax+0x10]\nlea eax, [1*ecx]\nmov rdx, [1*r10+8]\nlea rbx, [4*rcx]\nlea rbx, [8*r9+8]\n")
 MOV64 = "48b8ffffff7f00000000"
 MOV32 = "b8ffffff7f"
 
@@ -130,7 +131,7 @@ def run(tier):
         # the EXTENDED probes first (option-sensitive lines of the other encoder paths; compared byte for byte with a fresh instance
         # that was put into the model's state by the three individual setters), then the four classic probes at offset 0
         for i in range(ninst):
-            cmds += ["asm %d %s" % (i, common.hx(EXT_PROBES)), "dump %d 0 200" % i, "setoff %d 0" % i]
+            cmds += ["asm %d %s" % (i, common.hx(EXT_PROBES)), "dump %d 0 250" % i, "setoff %d 0" % i]
         for i in range(ninst):
             cmds.append("asm %d %s" % (i, common.hx(PROBES)))
             cmds.append("dump %d 0 40" % i)
@@ -138,7 +139,7 @@ def run(tier):
 
     # reference bytes of the extended probes in each of the 12 states
     states12 = list(itertools.product((0, 1, 2), (0, 1), (0, 1)))
-    rr = common.run_cases(binary, [["new 0 ext 256 H 0xcc", "opt 0 mov %d" % a, "opt 0 swap %d" % b, "opt 0 nobase %d" % c, "asm 0 %s" % common.hx(EXT_PROBES), "dump 0 0 200"] for (a, b, c) in states12], tag="c12e")
+    rr = common.run_cases(binary, [["new 0 ext 256 H 0xcc", "opt 0 mov %d" % a, "opt 0 swap %d" % b, "opt 0 nobase %d" % c, "asm 0 %s" % common.hx(EXT_PROBES), "dump 0 0 250"] for (a, b, c) in states12], tag="c12e")
     EXT_REF = {}
     for stt, r in zip(states12, rr):
         if r["crash"] or r["records"][4].split()[1] != "0":
@@ -227,7 +228,7 @@ def run(tier):
             if len(v.cov["samples"]) < 8 and (len(seq) in (1, 4) or rnd.random() < 0.002):
                 v.sample({"sequence": case["key"], "final_states": [list(s) for s in st], "probe_observations(p1 narrowed,p2 narrowed,swap,nobase)": [list(probe_obs_expected(s)) for s in st]})
     v.cov["rule"] = ("reference FSM over (mov, swap, nobase); from each of the 12 states each of the 20 transitions (5 setters x {STRICT,NASM,SMART,3}); all setter sequences of "
-                     "length <= 3 (8420); %d seeded sequences of length 4-40 incl. other out-of-range values on 1-3 interleaved live instances; state observed through 4 probe lines (decoded) and 14 extended probe lines of the other encoder paths (bytes compared with a fresh instance put into the model's state by the individual setters) "
+                     "length <= 3 (8420); %d seeded sequences of length 4-40 incl. other out-of-range values on 1-3 interleaved live instances; state observed through 4 probe lines (decoded) and 22 extended probe lines of the other encoder paths (bytes compared with a fresh instance put into the model's state by the individual setters) "
                      "lines, decoded by two decoders and classified by meaning (destination eax/rax, address form) as the header documents per state; distinct = distinct sequences that matched the model" % nrand)
     v.cov["exhaustive"] = True
     v.cov["states"] = len(seen_states)
